@@ -96,6 +96,16 @@ def verify(spec: Spec, sim: Any, *, check_fluxes: bool = False) -> list[dict]:
     if len(allidx) > 1 and not (np.diff(allidx) > 0).all():
         bad = int(np.argmax(np.diff(allidx) <= 0))
         out.append({"what": "time axis not strictly increasing", "around": allidx[max(0, bad - 1): bad + 3].tolist()})
+    # the default views (computed lazily from the argument tables) cover the same rows as the raw states
+    try:
+        vidx = np.asarray(res.variables.index, dtype=float)
+        if len(vidx) != len(allidx) or not np.allclose(vidx, allidx, rtol=0, atol=1e-12):
+            out.append({"what": "the result's default variables view does not cover the simulated segments", "view_rows": len(vidx), "simulated_rows": len(allidx),
+                        "view_tail": vidx[-3:].tolist(), "simulated_tail": allidx[-3:].tolist()})
+            return out
+    except Exception as e:  # noqa: BLE001
+        out.append({"what": "reading the result's default variables view raised", "error": f"{type(e).__name__}: {e}"[:300]})
+        return out
     rp = res.raw_parameters
     if len(rp) != len(spec.segments):
         out.append({"what": "raw_parameters length differs from segments", "got": len(rp)})
@@ -158,6 +168,9 @@ def verify(spec: Spec, sim: Any, *, check_fluxes: bool = False) -> list[dict]:
         if bad:
             out.append({"what": "trajectory differs from the exact piecewise solution", "segment": i, **bad, "x0": seg["x0"], "t0": t0, "params": seg["params"]})
         if flux_frames is not None:
+            if i >= len(flux_frames):
+                out.append({"what": "result reports fewer flux frames than simulated segments", "segments": len(frames), "flux_frames": len(flux_frames)})
+                break
             ff = flux_frames[i]
             for t in list(idx[:2]) + list(idx[-1:]):
                 state = f.loc[t].to_dict()
